@@ -11,7 +11,7 @@ use crate::engine::*;
 use crate::lacebox::Stop;
 use crate::proggen::{self, ProgSpec};
 use crate::refasm::{Layout, Op, Operand};
-use crate::refdbg::{parse_reg_dumps, Cmd, Effect, PLoc};
+use crate::refdbg::{parse_reg_dumps, Cmd, Effect, Loc, PLoc};
 
 pub struct C15;
 
@@ -29,6 +29,11 @@ pub struct Case {
     /// eval the same instruction on the twin: two consecutive texts that are equal up to letter case
     #[serde(default)]
     pub twin_first: bool,
+    /// when the eval text names a label the program does not define, first look that name up with
+    /// a debugger command (`print <name>`, which fails): a failed lookup must leave nothing behind
+    /// that makes the name resolve later
+    #[serde(default)]
+    pub lookup_first: bool,
 }
 
 pub const MALFORMED: &[&str] = &[
@@ -112,6 +117,16 @@ pub fn judge_case(c: &Case) -> Obs {
                 first.operand = Operand::Label(twin);
                 cmds.push(Cmd::Eval(first));
                 obs.label("eval-after-case-twin-eval");
+            }
+        }
+    }
+    if c.lookup_first {
+        let text = eval_cmd.text(0);
+        for name in ["nolabel", "NoSuchLabel", "d7", "newlbl"] {
+            if text.split_whitespace().any(|t| t == name) && !p.symbols.iter().any(|(n, _)| n == name) {
+                cmds.push(Cmd::Print(PLoc::Mem(Loc::Label(name.to_string(), 0))));
+                cmds.push(Cmd::Goto(Loc::Label(name.to_string(), 1)));
+                obs.label("eval-after-failed-lookup-of-the-same-name");
             }
         }
     }
@@ -217,10 +232,11 @@ fn cases() -> impl Strategy<Value = Case> {
         crate::pick::opt(0.3, any::<u16>()),
         any::<bool>(),
         any::<bool>(),
+        any::<bool>(),
     )
-        .prop_map(|(mut spec, pre_steps, goto, setup, eval, malformed, stack, twin_first)| {
+        .prop_map(|(mut spec, pre_steps, goto, setup, eval, malformed, stack, twin_first, lookup_first)| {
             spec.stack = stack;
-            Case { spec, pre_steps, goto, setup, eval, malformed, twin_first }
+            Case { spec, pre_steps, goto, setup, eval, malformed, twin_first, lookup_first }
         })
 }
 
